@@ -38,13 +38,13 @@ func off(class string) bool {
 	return false
 }
 
-const classK11 = "K11 lambda whose expression starts with a parenthesised regex literal (the formatter drops the parentheses; after 'lambda:' the lexer reads '/' as division)"
+const classK11 = "K11 parenthesised regex or star literal directly after 'lambda:', AND or OR (the formatter drops the parentheses; the lexer expects a binary operator there: '/' is division, '*' multiplication)"
 const classK6 = "K6 format stability: line breaks after binary operators creep one nesting level per pass (reaches a fixpoint later, layout only)"
 const classK7 = "K7 comment positions in a var declaration's constant expression that the formatter prints directly after '=' (before a - AND OR operator on the left spine, inside the operand of a leading unary operator)"
 
 var (
 	reCommentAfterAssign = regexp.MustCompile(`(?m)(=|=~|!~)[ \t]*\r?\n[ \t\r\n]*//`)
-	reLambdaLeadingRegex = regexp.MustCompile(`lambda:[ \t\r\n]*/[^/]`)
+	reLambdaLeadingRegex = regexp.MustCompile(`(?:lambda:|\bAND|\bOR)[ \t\r\n]*(?:/[^/]|\*)`)
 	reCommentBeforeRegex = regexp.MustCompile(`(?m)^[ \t]*//[^\n]*\n(?:[ \t]*\n)*[ \t]*/(?:[^/\n]|$)`)
 )
 
@@ -53,7 +53,8 @@ var (
 //
 //	comment-after-assign   a comment printed directly after = =~ !~ ("//" is lexed as an empty regex there)
 //	comment-before-regex   a comment line directly followed by a line starting with a regex literal
-//	lambda-leading-regex   "lambda: /re/…": the parentheses of `lambda: (/re/)` were dropped (after "lambda:" a '/' is lexed as division)
+//	lambda-leading-regex   "lambda: /re/…", "x AND /re/", "x OR *": the parentheses of `lambda: (/re/)`, `OR (*)` were dropped
+//	                       (after "lambda:", AND, OR the lexer expects a binary operator: '/' is lexed as division, '*' as multiplication)
 //	dbrp-quote             a dbrp statement whose names contain a double quote (printed unescaped)
 func formatDefectClass(original ast.Node, formatted string) string {
 	if prog, ok := original.(*ast.ProgramNode); ok {
